@@ -6,9 +6,11 @@ VARIANTS = [
     dict(id="c02-f1-isnan-on-raw", prop="C02", file=TELL, expect="R02.1",
          old="        if math.isnan(float_v):", new="        if math.isnan(v):"),
     dict(id="c02-f1-no-overflow", prop="C02", file=TELL, expect="R02.1",
-         old="        except (ValueError, TypeError, OverflowError):", new="        except (ValueError, TypeError):"),
+         old="        except Exception:\n", new="        except (ValueError, TypeError):\n"),
+    dict(id="c02-f30-narrow-except", prop="C02", file=TELL, expect="R02.1",
+         old="        except Exception:\n", new="        except (ValueError, TypeError, OverflowError):\n"),
     dict(id="c02-f1-full-revert", prop="C02", file=TELL, expect="R02.1",
-         old="            float_v = float(v)\n        except (ValueError, TypeError, OverflowError):\n            return f\"The value {repr(v)} could not be cast to float\"\n\n        if math.isnan(float_v):",
+         old="            float_v = float(v)\n        except Exception:\n            # Whatever a user-defined ``__float__`` raises means the same as the built-in conversion\n            # errors: the value is not float-convertible and the trial has to fail.\n            return f\"The value {repr(v)} could not be cast to float\"\n\n        if math.isnan(float_v):",
          new="            float(v)\n        except (ValueError, TypeError):\n            return f\"The value {repr(v)} could not be cast to float\"\n\n        if math.isnan(v):"),
     dict(id="c02-no-finally", prop="C02", file=TELL, expect="R02.1",
          old="    try:\n        # Sampler defined trial post-processing.\n        study = pruners._filter_study(study, frozen_trial)\n        # The sampler gets its own list: the one below is what has been validated and is stored.\n        study.sampler.after_trial(\n            study, frozen_trial, state, None if values is None else list(values)\n        )\n    finally:\n        study._storage.set_trial_state_values(frozen_trial._trial_id, state, values)\n",
@@ -34,8 +36,8 @@ VARIANTS = [
     dict(id="c02-sanitiser-no-len-check", prop="C02", file=TELL, expect="R02.1",
          old="    if len(study.directions) != len(values):\n        return (\n            f\"The number of the values {len(values)} did not match the number of the objectives \"\n            f\"{len(study.directions)}\"\n        )\n\n", new=""),
     dict(id="c02-sanitiser-continue-on-error", prop="C02", file=TELL, expect="R02.1",
-         old="        except (ValueError, TypeError, OverflowError):\n            return f\"The value {repr(v)} could not be cast to float\"\n",
-         new="        except (ValueError, TypeError, OverflowError):\n            continue\n"),
+         old="            return f\"The value {repr(v)} could not be cast to float\"\n",
+         new="            continue\n"),
     dict(id="c02-complete-unconditionally", prop="C02", file=TELL, expect="R02",
          old="        if values_conversion_failure_message is None:\n            state = TrialState.COMPLETE\n        else:\n            state = TrialState.FAIL\n            values = None\n",
          new="        state = TrialState.COMPLETE\n        if values_conversion_failure_message is not None:\n            pass\n"),
@@ -69,7 +71,7 @@ VARIANTS = [
     dict(id="c02-neutral-extra-local", prop="C02", file=TELL, expect=None,
          old="        if math.isnan(float_v):", new="        is_nan = math.isnan(float_v)\n        if is_nan:"),
     dict(id="c02-neutral-catch-arith", prop="C02", file=TELL, expect=None,
-         old="        except (ValueError, TypeError, OverflowError):", new="        except (ValueError, TypeError, ArithmeticError):"),
+         old="        except Exception:\n", new="        except (Exception,):\n"),
 ]
 
 VARIANTS += [
